@@ -156,6 +156,7 @@ class Check:
                   "parser": ("src/paulie/common/pauli_string_parser.py", "ParserGen.v", "ParserRefine.v", "Model/Parser.v"),
                   "table": ("src/paulie/common/two_local_generators.py", "TableGen.v", "TableRefine.v", "Model/Families.v"),
                   "linear": ("src/paulie/common/pauli_string_linear.py", "LinGen.v", "LinRefine.v", "Model/Linear.v"),
+                  "optimiser": ("src/paulie/common/pauli_string_collection.py (find_generators_with_connection, list_connections, _get_delta)", "OptGen.v", "OptRefine.v", "Model/Optimise.v"),
                   "apps": ("src/paulie/common/get_graph.py, application/otoc.py, fourpoint.py, charges.py and the graph methods of pauli_string_collection.py", "AppGen.v", "AppRefine.v", "Model/Graph.v, Model/Orbit.v")}
 
     def check_translation(self, kind="classification"):
